@@ -463,7 +463,7 @@ fn main() {
         }
     } else {
         // (peers, depth): the alphabet grows with the number of peers
-        let plans: &[(usize, usize)] = ctx.tier.pick(&[(2, 6), (3, 5)][..], &[(2, 8), (3, 7), (4, 5)][..]);
+        let plans: &[(usize, usize)] = ctx.tier.pick(&[(2, 6), (3, 5)][..], &[(2, 8), (3, 7), (4, 6)][..]);
         let mut plan_out = vec![];
         for &(peers, depth) in plans {
             let ops = alphabet(peers);
@@ -508,7 +508,7 @@ fn main() {
         &ctx,
         rep,
         Spec {
-            rule: "BFS over all histories of peer events from an empty tracker, de-duplicated on the complete observable view (per peer: connections, trusted, protection tags, archival, full, expired bit; published info; protected_len per tag). Alphabet per peer: add_peer_id, add/remove_connection x 2 connection ids, set_trusted(true/false), protect/unprotect x tags {1,2}, mark_as_archival, on_agent_version x 6 agent strings, age-disconnected(+121 s); plus gc. quick: 2 peers depth 6, 3 peers depth 5; thorough: 2 peers depth 8, 3 peers depth 7, 4 peers depth 5. After every transition: info() and the watcher == recount over peers(); connected/trusted counts == counts implied by the events; protected_len(tag) == number of peers protected with tag; return values of add_peer_id/protect/unprotect; gc keeps every connected or protected peer, keeps non-expired peers and drops expired unprotected disconnected ones. distinct = distinct observable states; every state is non-trivial except the initial one",
+            rule: "BFS over all histories of peer events from an empty tracker, de-duplicated on the complete observable view (per peer: connections, trusted, protection tags, archival, full, expired bit; published info; protected_len per tag). Alphabet per peer: add_peer_id, add/remove_connection x 2 connection ids, set_trusted(true/false), protect/unprotect x tags {1,2}, mark_as_archival, on_agent_version x 6 agent strings, age-disconnected(+121 s); plus gc. quick: 2 peers depth 6, 3 peers depth 5; thorough: 2 peers depth 8, 3 peers depth 7, 4 peers depth 6. After every transition: info() and the watcher == recount over peers(); connected/trusted counts == counts implied by the events; protected_len(tag) == number of peers protected with tag; return values of add_peer_id/protect/unprotect; gc keeps every connected or protected peer, keeps non-expired peers and drops expired unprotected disconnected ones. distinct = distinct observable states; every state is non-trivial except the initial one",
             assumptions: &[
                 "the GC clock is std::time::Instant, which cannot be paused: expiry is reached with the verif_age_disconnected hook (a peer is aged by 121 s; EXPIRED_AFTER is 120 s), a replay of a history takes microseconds so un-aged peers stay far from expiry",
                 "archival / full flags of a peer are read from the tracker's own per-peer accessors (the statement defines the statistics as a recount of the tracked peers); connections, trust and protection tags are modelled independently from the events",
